@@ -7823,4 +7823,65 @@ pub mod verif_hooks {
                 .collect(),
         ))
     }
+
+    /// Same step as `flush_pack_step`, additionally returning the buffer's pack state after the call:
+    /// (pending delta ids, number of pending deltas, segments_written, raw_placeholder_written,
+    /// number of segments still buffered).
+    #[allow(clippy::type_complexity)]
+    pub fn flush_pack_step_state(
+        group_id: u32,
+        packs_written: u32,
+        pending: Vec<Vec<u8>>,
+        first_pending_id: u32,
+        new_segments: Vec<Vec<u8>>,
+    ) -> anyhow::Result<(
+        Vec<(usize, Vec<u8>, u64)>,
+        Vec<(u32, u32, u32)>,
+        (Vec<u32>, usize, u32, bool, usize),
+    )> {
+        let raw = group_id < super::NO_RAW_GROUPS;
+        let mut buffer = super::SegmentGroupBuffer::new(group_id, 7, 8);
+        let seg = |part: usize, data: Vec<u8>| super::BufferedSegment {
+            sample_name: "s".to_string(),
+            contig_name: "c".to_string(),
+            seg_part_no: part,
+            data,
+            is_rev_comp: false,
+            sample_priority: 0,
+        };
+        if !raw {
+            let reference: Vec<u8> = vec![0, 1, 2, 3, 3, 2, 1, 0, 0, 2];
+            let mut lz = crate::lz_diff::LZDiff::new(20);
+            lz.prepare(&reference);
+            buffer.lz_diff = Some(lz);
+            buffer.reference_segment = Some(seg(0, reference));
+            buffer.ref_written = true;
+        }
+        buffer.raw_placeholder_written = raw && packs_written > 0;
+        buffer.pending_delta_ids = (0..pending.len() as u32).map(|j| first_pending_id + j).collect();
+        buffer.segments_written = first_pending_id + pending.len() as u32;
+        buffer.pending_deltas = pending;
+        for (j, d) in new_segments.into_iter().enumerate() {
+            buffer.segments.push(seg(5 + j, d));
+        }
+        let config = super::StreamingQueueConfig::default();
+        let res = super::flush_pack_compress_only(&mut buffer, &config)?;
+        Ok((
+            res.archive_writes
+                .into_iter()
+                .map(|p| (p.stream_id, p.data, p.metadata))
+                .collect(),
+            res.registrations
+                .into_iter()
+                .map(|r| (r.group_id, r.in_group_id, r.raw_length))
+                .collect(),
+            (
+                buffer.pending_delta_ids.clone(),
+                buffer.pending_deltas.len(),
+                buffer.segments_written,
+                buffer.raw_placeholder_written,
+                buffer.segments.len(),
+            ),
+        ))
+    }
 }
